@@ -124,6 +124,7 @@ func VerifC04Faults() {
 	conn.maxIdle = 1
 	conn.gates = s.gates
 	s.conn = conn
+	conn.closeErr = verifChoice("close-reports-error", 2) == 1 // closed is closed, whatever Close returns
 	c := vNewClient(conn, v, proto.CompressionDisabled, compress.None, nil)
 	switch verifChoice("fault", 6) {
 	case 0: // server stream cut after byte k
